@@ -166,6 +166,37 @@ def _task(task):
                     npat += 1
         except BaseException as e:  # noqa: BLE001
             t.violation({"kind": "sweep-aborted", "exc": type(e).__name__}, {"cfg": list(cfg), "offset": offset}, observed=str(e)[:200])
+        # a definition is what its public attributes say: after the type's encoding is REPLACED on the loaded definition (it has decoded
+        # packets by now), fields decode as the new declaration says (other sign convention / byte order, same width)
+        if fam == "int" or enc in ("IEEE754", "MILSTD_1750A"):
+            try:
+                import dataclasses
+                from space_packet_parser.xtce import encodings as _enc
+                if fam == "int":
+                    new_cfg = (fam, w, "unsigned" if enc != "unsigned" else "twosComplement", (not lsb) if w % 8 == 0 else lsb)
+                    new_lib = _enc.IntegerDataEncoding(w, new_cfg[2], byte_order="leastSignificantByteFirst" if new_cfg[3] else "mostSignificantByteFirst")
+                else:
+                    new_cfg = (fam, w, enc, not lsb)
+                    new_lib = _enc.FloatDataEncoding(w, encoding=enc, byte_order="leastSignificantByteFirst" if new_cfg[3] else "mostSignificantByteFirst")
+                new_pt = ptype_for(new_cfg, i)
+                doc2 = dataclasses.replace(doc, ptypes=tuple(new_pt if p.name == new_pt.name else p for p in doc.ptypes))
+                d_edit = defn_orig if (i + offset) % 2 == 0 else defn_copy
+                old_lib = d_edit.parameter_types[new_pt.name].encoding
+                d_edit.parameter_types[new_pt.name].encoding = new_lib
+                try:
+                    for v in (1, (1 << w) - 2, int(("1100" * w)[:w], 2), 1 << (w - 1)):
+                        bits = "1" * offset + format(v, f"0{w}b") + "1" * 8 + "1" * tail
+                        pkt = docs.packet_for(i, bits)
+                        why = compare_outcome(decode_packet(doc2, pkt), parse_one(d_edit, pkt))
+                        t.evals += 1
+                        if why:
+                            t.violation({"kind": "decode-mismatch", "family": fam, "after": "encoding replaced on the loaded definition"},
+                                        {"cfg": list(cfg), "new_cfg": list(new_cfg), "offset": offset, "packet": pkt.hex(), "encoding_replaced": True}, note=why)
+                            break
+                finally:
+                    d_edit.parameter_types[new_pt.name].encoding = old_lib
+            except BaseException as e:  # noqa: BLE001
+                t.violation({"kind": "sweep-aborted", "exc": type(e).__name__, "part": "encoding-replaced"}, {"cfg": list(cfg), "offset": offset}, observed=str(e)[:200])
         t.nontrivial += npat
         t.outcomes[f"{fam}:{enc}:{'lsb' if lsb else 'msb'}"] += npat
         t.programs += 1
@@ -260,7 +291,8 @@ def run(ctx):
                   "specials, MIL-STD-1750A all 256 exponents x ~60 mantissas, both byte orders, also under the deprecated spellings 'MIL-1750A' / 'IEEE-754', "
                   f"offsets {'0,3 for the full sweeps, 0..7 for binary32/64' if ctx.quick else '0..7'}; "
                   "per configuration and offset, the first two patterns are also decoded twice from one raw packet object of the framer; every other configuration is decoded through copy.deepcopy of the loaded definition; "
-                  "in a fresh interpreter, every configuration at offsets 0, 3, 5: a truncated packet first, then complete packets"),
+                  "in a fresh interpreter, every configuration at offsets 0, 3, 5: a truncated packet first, then complete packets; "
+                  "after its sweep, every type's encoding object is replaced on the (used) definition by one with the other sign convention / byte order and decoded again"),
         "rule": ("one evaluation = one packet parsed by the loaded definition and by the reference interpreter; distinct non-trivial = "
                  "distinct (configuration, offset, field bit pattern) triples"),
     }
